@@ -109,11 +109,32 @@ CLAIMS.update({
 })
 CLAIMS["C01"]["text"] += " Function epilogues choose ReturnVoid vs Return(n) from the return type (EPILOGUE); assembler totality (ASM-TOTAL)."
 
+CLAIMS.update({
+    "C06": {
+        "text": "Decides the tri-colour invariant's structural obligations per site: every store of a Value into a heap payload in step() is preceded by write_barrier on the same parent and value (GC-BARRIER); all five allocators colour from gc_state, "
+        "register, shade while marking and account (GC-ALLOC); every Value-holding thread field is a root (GC-ROOTS); process_gray marks every Value-typed payload field of every kind (GC-CHILDREN); the transition to sweeping happens only after the roots were "
+        "re-marked and the gray stack re-tested, because loads from heap to stack are not shaded (GC-TERMINATION); collector phases run only from maybe_gc, and maybe_gc only between instructions (GC-ATOMIC); sweep frees exactly the unmarked objects, unlinks them and resets survivors (GC-SWEEP).",
+        "note": "'Behaves exactly as with collection disabled' is the conjunction of everything and is not decided; these are the necessary per-site conditions, for every interleaving because they do not depend on it.",
+    },
+    "C07": {
+        "text": "Decides the second sentence: every raw allocation site in vm.rs flows into exactly one registry whose owner type has a Drop that frees each entry (OWN-LEDGER); allocator/deallocator agreement per object kind (TAG-DISPATCH); sweep/drop free each registered object once (GC-SWEEP, GC-ALLOC).",
+        "note": "Bounded heap for bounded live data (pacing) is numeric and not decided.",
+    },
+    "C08": {
+        "text": "Decides: SpawnTask pushes to the new thread only values deep-copied with the new thread as destination; deep_copy is total over value tags without a wildcard, allocates a new object per heap kind from recursively copied payload, and shares only the channel queue (CH-QUEUE, GC-CHILDREN); each tag arm uses its own accessor (TAG-DISPATCH).",
+        "note": "Invisibility of later mutation follows from copy + heap separation; heap separation for channels is the known finding under C09.",
+    },
+    "C09": {
+        "text": "Decides: the channel queue is FIFO and reads remove (CH-QUEUE); ChannelRead pushes only deep_copy(dequeued) allocated in the reader (CH-QUEUE); the blocking path re-pushes the channel, rewinds pc and has no other effect (RESUME); a container shared between threads must not hold thread-local Values (CH-OWN: one known finding on the pinned tree).",
+        "note": "Interleaving-level behaviour is not decided.",
+    },
+})
+
 NOT_APPLICABLE = {
     "C22": "which instance monomorphisation selects is computed from solved types of the user's program by unification/substitution; no structural fact short of a correctness proof of subst/fits_impl_ty decides it",
     "C25": "sortedness/stability is an algorithmic property of index arithmetic over arrays of arbitrary length; the structural facts available are far from sufficient",
     "C30": "literal denotation depends on character-level lexer behaviour on every string and on str::parse: value semantics, not code shape",
     "C35": "agreement of offset->node search with the resolver's keys is a relation between source ranges computed at run time",
 }
-for _p in ["C06", "C11", "C14", "C23", "C24", "C27", "C28", "C29", "C31", "C32", "C33", "C34", "C36", "C37", "C38"]:
+for _p in ["C11", "C14", "C23", "C24", "C27", "C28", "C29", "C31", "C32", "C33", "C34", "C36", "C37", "C38"]:
     NOT_APPLICABLE.setdefault(_p, PENDING)
